@@ -18,9 +18,11 @@ def DF (sd : Bool) (pf : FPc) (cvF : Cv) : Prop := sd = true → pf = .waitF →
 def DC (sd : Bool) (pc : CPc) (cvC cvQ : Cv) : Prop :=
   sd = true → (cIdle pc = true → cvC.flag = true) ∧ (pc = .waitQ → cvQ.flag = true)
 def DK (sd : Bool) (pk : KPc) (cvK : Cv) : Prop := sd = true → pk = .waitK → cvK.flag = true
-/-- after `kill_logs`: everything accepted is in a flushed log file or in the tables -/
-def FIN (pd : DPc) (dirty : Nat) (be : Bool) (q app : List Nat) : Prop :=
-  (pd = .unlock ∨ pd = .done) → dirty = 0 ∧ (be = false → q = [] ∧ sum app = 0)
+/-- after `kill_logs`: everything accepted is in a flushed log file or in the tables: queue and
+    appending file empty, NO FILE HALF READ (`Log::kill_logs` deletes the file being read: it
+    held no unread record) -/
+def FIN (pd : DPc) (dirty : Nat) (be : Bool) (q app : List Nat) (reading : Option (List Nat)) (kl : Nat) : Prop :=
+  (pd = .unlock ∨ pd = .done) → dirty = 0 ∧ (be = false → q = [] ∧ sum app = 0 ∧ reading = none ∧ kl = 0)
 
 structure GD (s : St) : Prop where
   dl : DL s.sdDone s.pl s.cvL s.lqNotified
@@ -28,7 +30,7 @@ structure GD (s : St) : Prop where
   dc : DC s.sdDone s.pc s.cvC s.cvQ
   dk : DK s.sdDone s.pk s.cvK
   q2 : Q2 s.bgErr s.cms s.pl s.pf s.pc s.pk
-  fin : FIN s.pd s.dirty s.bgErr s.q s.app
+  fin : FIN s.pd s.dirty s.bgErr s.q s.app s.reading s.killLost
 
 /-- the fixes of F7 / F12 / F13 are in (`Cfg.patched`), workers are running -/
 structure Fixed (cfg : Cfg) : Prop where
@@ -72,7 +74,7 @@ theorem gd_errStep {cfg : Cfg} (hF : Fixed cfg) {s s1 : St} {e : ETail} {n : Opt
     (s1.sdDone = true → s1.pf = .waitF → s1.cvF.flag = true) ∧
     (s1.sdDone = true → (cIdle s1.pc = true → s1.cvC.flag = true) ∧ (s1.pc = .waitQ → s1.cvQ.flag = true)) ∧
     (s1.sdDone = true → s1.pk = .waitK → s1.cvK.flag = true) ∧
-    FIN s1.pd s1.dirty s1.bgErr s1.q s1.app ∧
+    FIN s1.pd s1.dirty s1.bgErr s1.q s1.app s1.reading s1.killLost ∧
     s1.pl = s.pl ∧ s1.pf = s.pf ∧ s1.pc = s.pc ∧ s1.pk = s.pk ∧
     -- committers
     ((e = .e1 ∧ s1.cms = s.cms ∧ s1.bgErr = true ∧ (n = some .e2 ∨ (n = some .e3 ∧ s.bgErr = true))) ∨
@@ -133,7 +135,9 @@ theorem gd_tickL {cfg : Cfg} (hF : Fixed cfg) {s s' : St} (hG : G1 s) (hI : GD s
   split at h
   · cases h
     unfold reindexStep
-    split <;> (constructor <;> dsimp only <;> (first | assumption | (gdsimp; first | done | grind)))
+    split
+    · split <;> (constructor <;> dsimp only <;> (first | assumption | (gdsimp; first | done | grind)))
+    · constructor <;> dsimp only <;> (first | assumption | (gdsimp; first | done | grind))
   · split at h
     · split at h <;> gdfin
     · gdfin
@@ -157,7 +161,10 @@ theorem gd_tickL {cfg : Cfg} (hF : Fixed cfg) {s s' : St} (hG : G1 s) (hI : GD s
   · gdfin
   · cases h
     unfold reindexStep
-    split <;> (constructor <;> dsimp only <;> (first | assumption | (gdsimp; first | done | grind)))
+    split
+    · split <;> (constructor <;> dsimp only <;> (first | assumption | (gdsimp; first | done | grind)))
+    · constructor <;> dsimp only <;> (first | assumption | (gdsimp; first | done | grind))
+  · gdfin
   · rename_i e hp
     obtain ⟨⟨s1, n⟩, he, hs⟩ := map_some h
     subst hs
@@ -232,15 +239,25 @@ theorem gd_tickC {cfg : Cfg} (hF : Fixed cfg) {s s' : St} (hG : G1 s) (hI : GD s
     · cases h
       cases hf : s.cvC.flag <;> (constructor <;> dsimp only <;> (first | assumption | (gdsimp; first | done | grind)))
     · gdfin
-  · split at h
+  · rename_i hpc
+    have hfin : ∀ dirty be q app rd kl, FIN s.pd dirty be q app rd kl := by
+      intro dirty be q app rd kl hx
+      exfalso
+      have := hG.a9.2.2.1 (by rcases hx with hx | hx <;> (rw [hx]; decide))
+      rw [hpc] at this; cases this
+    split at h
     · gdfin
-    · gdfin
+    · cases h
+      constructor <;> dsimp only <;>
+        (first | assumption | (exact hfin _ _ _ _ _ _) | (gdsimp; first | done | grind))
     · split at h
       · cases h
         split
         · unfold lqNotify
-          split <;> (constructor <;> dsimp only <;> (first | assumption | (gdsimp; first | done | grind)))
-        · constructor <;> dsimp only <;> (first | assumption | (gdsimp; first | done | grind))
+          split <;> (constructor <;> dsimp only <;>
+            (first | assumption | (exact hfin _ _ _ _ _ _) | (gdsimp; first | done | grind)))
+        · constructor <;> dsimp only <;>
+            (first | assumption | (exact hfin _ _ _ _ _ _) | (gdsimp; first | done | grind))
       · gdfin
   · split at h <;> gdfin
   · split at h
@@ -303,6 +320,56 @@ theorem gd_tickK {cfg : Cfg} (hF : Fixed cfg) {s s' : St} (hG : G1 s) (hI : GD s
       · intro _ hex; exact absurd hex hno
   · gdfin
 
+/-- number of unread records of the file `read_next` works on -/
+def curLen (s : St) : Nat := (curFile s).1.elim 0 List.length
+
+theorem curFile_reading {s : St} {f : List Nat} (h : s.reading = some f) : curFile s = (some f, s.readQ) := by
+  unfold curFile; rw [h]
+
+/-- FUEL ADEQUACY of `while enact_logs(false)? {}`: with more fuel than the current file has
+    records the loop ends because `enact_logs` returned false (end of file / nothing to read),
+    not because the fuel ran out: no file is left half read. -/
+theorem seqEnactLoop_reading {cfg : Cfg} : ∀ (n : Nat) {s s' : St}, seqEnactLoop cfg n s = some s' →
+    curLen s < n → s'.reading = none
+  | 0, s, s', _, hn => by omega
+  | n + 1, s, s', h, hn => by
+    simp only [seqEnactLoop] at h
+    cases he : seqEnactOnce cfg s with
+    | none => rw [he] at h; cases h
+    | some r =>
+      obtain ⟨s1, b⟩ := r
+      rw [he] at h
+      unfold seqEnactOnce at he
+      split at he
+      · rename_i rq hcf
+        cases he
+        simp only at h; cases h
+        exact (curFile_none hcf).1
+      · cases he; simp only at h; cases h; rfl
+      · rename_i r rs rq hcf
+        simp only at he
+        split at he
+        · cases he
+        · cases he
+          simp only at h
+          apply seqEnactLoop_reading n h
+          unfold curLen at hn ⊢
+          rw [hcf] at hn
+          rw [curFile_reading rfl]
+          simp only [Option.elim, List.length_cons] at hn ⊢
+          omega
+
+theorem curLen_le_fuel (s : St) : curLen s < fuel s := by
+  unfold curLen fuel curFile
+  cases hr : s.reading with
+  | some f => simp only [Option.elim]; omega
+  | none =>
+    cases hq : s.readQ with
+    | nil => simp only [Option.elim]; omega
+    | cons f fs =>
+      simp only [Option.elim, List.map_cons, List.foldl_cons, List.length_cons]
+      rw [foldl_add]; omega
+
 theorem qa_seqEnactOnce {cfg : Cfg} {s s1 : St} {b : Bool} (h : seqEnactOnce cfg s = some (s1, b)) :
     s1.q = s.q ∧ s1.app = s.app := by
   unfold seqEnactOnce at h
@@ -349,11 +416,13 @@ theorem sum_app_seqFlush0 (s : St) : sum (seqFlush0 s).app = 0 ∧ (seqFlush0 s)
   · rename_i h; exact ⟨by omega, rfl⟩
 
 theorem kill_post {cfg : Cfg} {s s' : St} (h : killLogsSeq cfg s = some s') :
-    s'.dirty = 0 ∧ (s.bgErr = false → s'.q = [] ∧ sum s'.app = 0) := by
+    s'.dirty = 0 ∧ (s.bgErr = false → s'.q = [] ∧ sum s'.app = 0 ∧ s'.reading = none ∧ s'.killLost = 0) := by
   unfold killLogsSeq at h
   split at h
   · rename_i hb; cases h; exact ⟨rfl, fun hb' => by rw [hb] at hb'; cases hb'⟩
   · obtain ⟨s1, h1, h⟩ := bind_some h
+    split at h
+    · cases h
     obtain ⟨s4, h4, h⟩ := bind_some h
     obtain ⟨s6, h6, h⟩ := bind_some h
     cases h
@@ -364,11 +433,14 @@ theorem kill_post {cfg : Cfg} {s s' : St} (h : killLogsSeq cfg s = some s') :
     have a4 := qa_seqEnactLoop _ h4
     have a5 := sum_app_seqFlush0 s4
     have a6 := qa_seqEnactLoop _ h6
-    constructor
+    have hrd : s6.reading = none := seqEnactLoop_reading _ h6 (curLen_le_fuel _)
+    refine ⟨?_, ?_, hrd, ?_⟩
     · show s6.q = []
       rw [a6.1, a5.2, a4.1, hq3]
     · show sum s6.app = 0
       rw [a6.2]; exact a5.1
+    · show optLen s6.reading = 0
+      rw [hrd]; rfl
 
 set_option maxHeartbeats 1600000 in
 theorem gd_tickD {cfg : Cfg} (hF : Fixed cfg) {s s' : St} (hG : G1 s) (hI : GD s) (h : tickD cfg s = some s') : GD s' := by
@@ -460,7 +532,7 @@ theorem gd_init (cfg : Cfg) (n r : Nat) : GD (init cfg n r) := by
   split <;> (constructor <;> dsimp only <;> simp [DL, DF, DC, DK, FIN, Q2])
 
 set_option maxHeartbeats 800000 in
-theorem gd_step {cfg : Cfg} (hF : Fixed cfg) {s s' : St} {a : Act} (hG : G1 s) (hI : GD s)
+theorem gd_step {cfg : Cfg} (hF : Fixed cfg) {s s' : St} {a : Act} (hnp : a.isPanic = false) (hG : G1 s) (hI : GD s)
     (h : step cfg s a = some s') : GD s' := by
   have hw := hF.w
   cases a with
@@ -468,7 +540,7 @@ theorem gd_step {cfg : Cfg} (hF : Fixed cfg) {s s' : St} {a : Act} (hG : G1 s) (
     cases t
     · exact gd_tickL hF hG hI h
     · exact gd_tickF hF hG hI h
-    · exact gd_tickC hF hG hI h
+    · exact gd_tickC hF hG hI (tickCg_some h)
     · exact gd_tickK hF hG hI h
     · exact gd_tickD hF hG hI h
   | cmTick i => exact gd_tickCm hG hI h
@@ -514,6 +586,38 @@ theorem gd_step {cfg : Cfg} (hF : Fixed cfg) {s s' : St} {a : Act} (hG : G1 s) (
   | apiFlush => simp [step, hw] at h
   | apiEnact => simp [step, hw] at h
   | apiClean => simp [step, hw] at h
+  | defer =>
+    obtain ⟨dl, df, dc, dk, q2, fin⟩ := hI
+    have a9 := hG.a9
+    simp only [step] at h
+    split at h
+    · split at h
+      · rename_i b hp
+        cases h
+        refine ⟨?_, df, dc, dk, q2_setL q2 (by rw [hp]; simp [lE23]), ?_⟩
+        · intro hsd; simp
+        · intro hx
+          have : s.pl = .done := a9.1 (by rcases hx with hx | hx <;> (rw [hx]; decide))
+          rw [hp] at this; cases this
+      · cases h
+    · cases h
+  | panic t => cases hnp
+  | iterHold | iterRelease | dropEnacted k | makeCycle =>
+    simp only [step] at h
+    split at h
+    · cases h; exact ⟨hI.dl, hI.df, hI.dc, hI.dk, hI.q2, hI.fin⟩
+    · cases h
+  | lockTree | unlockTree =>
+    simp only [step] at h
+    cases h; exact ⟨hI.dl, hI.df, hI.dc, hI.dk, hI.q2, hI.fin⟩
+  | grow k =>
+    simp only [step] at h
+    split at h
+    · cases h; exact ⟨hI.dl, hI.df, hI.dc, hI.dk, hI.q2, hI.fin⟩
+    · split at h
+      · cases h; exact ⟨hI.dl, hI.df, hI.dc, hI.dk, hI.q2, hI.fin⟩
+      · cases h
+    · cases h
 
 /-- all invariants of the fixed, threaded configuration -/
 structure Inv (cfg : Cfg) (s : St) : Prop where
@@ -526,8 +630,8 @@ structure Inv (cfg : Cfg) (s : St) : Prop where
 theorem inv_reachable {cfg : Cfg} (hF : Fixed cfg) {n r : Nat} {s : St} (h : Reachable cfg n r s) : Inv cfg s :=
   reachable_induction (Inv cfg)
     ⟨cvInv_init cfg n r, g1_init cfg hF.w n r, gp_init cfg n r, gn_init cfg n r, gd_init cfg n r⟩
-    (fun _ _ _ hI hs => ⟨cvInv_step hI.cv hs, g1_step hF.w hI.g1 hs, gp_step hF.w hI.g1 hI.gp hs,
-      gn_step hF.w hI.g1 hI.gn hs, gd_step hF hI.g1 hI.gd hs⟩) s h
+    (fun _ _ _ hnp hI hs => ⟨cvInv_step hI.cv hs, g1_step hF.w hnp hI.g1 hs, gp_step hF.w hnp hI.g1 hI.gp hs,
+      gn_step hF.w hnp hI.g1 hI.gn hs, gd_step hF hnp hI.g1 hI.gd hs⟩) s h
 
 /-- the shutdown flag is only ever set by a drop or by a stored error -/
 def A12 (sh : Bool) (pd : DPc) (be : Bool) : Prop := sh = true → pd.afterSd1 = true ∨ be = true
@@ -563,7 +667,7 @@ theorem gx_errStep {cfg : Cfg} {s s1 : St} {e : ETail} {n : Option ETail} (hI : 
     · cases he; exact a12
 
 set_option maxHeartbeats 800000 in
-theorem gx_step {cfg : Cfg} (hw : cfg.workers = true) {s s' : St} {a : Act} (hI : GX s)
+theorem gx_step {cfg : Cfg} (hw : cfg.workers = true) {s s' : St} {a : Act} (hnp : a.isPanic = false) (hI : GX s)
     (h : step cfg s a = some s') : GX s' := by
   have hI0 := hI
   obtain ⟨a12⟩ := hI
@@ -573,7 +677,9 @@ theorem gx_step {cfg : Cfg} (hw : cfg.workers = true) {s s' : St} {a : Act} (hI 
     · simp only [step] at h
       unfold tickL reindexStep at h
       split at h
-      · split at h <;> gxfin
+      · split at h
+        · split at h <;> gxfin
+        · gxfin
       · split at h
         · split at h <;> gxfin
         · gxfin
@@ -588,7 +694,10 @@ theorem gx_step {cfg : Cfg} (hw : cfg.workers = true) {s s' : St} {a : Act} (hI 
         · gxfin
       · gxfin
       · gxfin
-      · split at h <;> gxfin
+      · split at h
+        · split at h <;> gxfin
+        · gxfin
+      · gxfin
       · obtain ⟨⟨s1, n⟩, he, hs⟩ := map_some h
         subst hs; exact ⟨(gx_errStep hI0 he : A12 s1.shutdown s1.pd s1.bgErr)⟩
       · gxfin
@@ -604,7 +713,7 @@ theorem gx_step {cfg : Cfg} (hw : cfg.workers = true) {s s' : St} {a : Act} (hI 
       · obtain ⟨⟨s1, n⟩, he, hs⟩ := map_some h
         subst hs; exact ⟨(gx_errStep hI0 he : A12 s1.shutdown s1.pd s1.bgErr)⟩
       · gxfin
-    · simp only [step] at h
+    · have h := tickCg_some h
       unfold tickC at h
       split at h
       · split at h
@@ -691,10 +800,28 @@ theorem gx_step {cfg : Cfg} (hw : cfg.workers = true) {s s' : St} {a : Act} (hI 
   | apiFlush => simp [step, hw] at h
   | apiEnact => simp [step, hw] at h
   | apiClean => simp [step, hw] at h
+  | defer =>
+    simp only [step] at h
+    split at h
+    · split at h <;> gxfin
+    · gxfin
+  | panic t => cases hnp
+  | iterHold | iterRelease | dropEnacted k | makeCycle =>
+    simp only [step] at h
+    split at h <;> gxfin
+  | lockTree | unlockTree =>
+    simp only [step] at h
+    gxfin
+  | grow k =>
+    simp only [step] at h
+    split at h
+    · gxfin
+    · split at h <;> gxfin
+    · gxfin
 
 theorem gx_reachable {cfg : Cfg} (hw : cfg.workers = true) {n r : Nat} {s : St} (h : Reachable cfg n r s) : GX s :=
   reachable_induction GX (by unfold init; split <;> exact ⟨by simp [A12]⟩)
-    (fun _ _ _ hI hs => gx_step hw hI hs) s h
+    (fun _ _ _ hnp hI hs => gx_step hw hnp hI hs) s h
 
 /-- with the F7 fix `kill_logs` never waits: shutdown is set when it runs -/
 theorem seqEnactOnce_some {cfg : Cfg} (p1 : cfg.enactChecksShutdown = true) {s : St} (hs : s.shutdown = true) :
@@ -717,19 +844,21 @@ theorem seqEnactLoop_some {cfg : Cfg} (p1 : cfg.enactChecksShutdown = true) :
     · exact ⟨s1, rfl⟩
     · exact seqEnactLoop_some p1 n hs1
 
-theorem killLogsSeq_some {cfg : Cfg} (p1 : cfg.enactChecksShutdown = true) {s : St} (hs : s.shutdown = true) :
-    ∃ s', killLogsSeq cfg s = some s' := by
+theorem killLogsSeq_some {cfg : Cfg} (p1 : cfg.enactChecksShutdown = true) {s : St} (hs : s.shutdown = true)
+    (ht : s.treeLocked = false) (hdc : s.deferCycle = false) : ∃ s', killLogsSeq cfg s = some s' := by
   unfold killLogsSeq
   split
   · exact ⟨_, rfl⟩
   · obtain ⟨s1, h1⟩ := seqEnactLoop_some p1 (fuel s) hs
     have e1 := ctlEq_seqEnactLoop _ h1
+    have ht1 : deferForEver s1 = false := by
+      unfold deferForEver; rw [e1.tl, e1.dcy, ht, hdc]; rfl
     have hs3 : (seqProcessLoop (fuel s1) (seqFlush0 s1)).shutdown = true := by
       rw [((ctlEq_seqFlush0 s1).trans (ctlEq_seqProcessLoop (fuel s1) _)).sh, e1.sh]; exact hs
     obtain ⟨s4, h4⟩ := seqEnactLoop_some p1 (fuel (seqProcessLoop (fuel s1) (seqFlush0 s1))) hs3
     have hs5 : (seqFlush0 s4).shutdown = true := by
       rw [(ctlEq_seqFlush0 s4).sh, (ctlEq_seqEnactLoop _ h4).sh]; exact hs3
     obtain ⟨s6, h6⟩ := seqEnactLoop_some p1 (fuel (seqFlush0 s4)) hs5
-    exact ⟨{ s6 with dirty := 0 }, by simp [h1, h4, h6]⟩
+    exact ⟨{ s6 with dirty := 0, killLost := optLen s6.reading }, by simp [h1, h4, h6, ht1]⟩
 
 end Pdb.Conc.Pipe
